@@ -246,4 +246,42 @@ def runW (c : Cfg) : List (Nat × Op) → List Doc → List Doc
   | [], w => w
   | (i, op) :: r, w => runW c r (modifyAt (step c op) i w)
 
+/-! ### package calls that raise part-way
+
+  `save()` / `write()` can raise in the middle of `__zipwrite` (the caller's stream refuses a write, a picture
+  registered by file name is not readable).  `__zipwrite` keeps no state between calls: `self._z`, `self._now`
+  and `self.manifest` are assigned afresh at its start, so a call that did not get through leaves nothing that a
+  later call reads.  The only effect on the document is the one of the `metaxml()` inside `_saveXmlObjects`:
+  if the failure came before the top document's `meta.xml` member was begun the document is untouched, otherwise
+  its generator has been normalised.  A failed call has no output. -/
+
+inductive Call where
+  | ok (op : Op)
+  | failedEarly      -- save()/write() raised before `metaxml()` ran
+  | failedLate       -- save()/write() raised after `metaxml()` ran
+deriving DecidableEq, Repr, Inhabited
+
+def Call.op? : Call → Option Op
+  | .ok op => some op
+  | _ => none
+
+def stepC (c : Cfg) : Call → Doc → Doc
+  | .ok op, d => step c op d
+  | .failedEarly, d => d
+  | .failedLate, d => normGen c.tv d
+
+def outC (c : Cfg) : Call → Doc → Option Out
+  | .ok op, d => some (out c op d)
+  | .failedEarly, _ => none
+  | .failedLate, _ => none
+
+def runC (c : Cfg) : List Call → Doc → Doc
+  | [], d => d
+  | k :: r, d => runC c r (stepC c k d)
+
+/-- the outputs of a history of calls, `none` for the calls that raised -/
+def outsC (c : Cfg) : List Call → Doc → List (Option Out)
+  | [], _ => []
+  | k :: r, d => outC c k d :: outsC c r (stepC c k d)
+
 end OdfModel.Render
